@@ -113,6 +113,8 @@ class Machine:
         self.sessions = cfg.get("sessions", 1)
         self.p_share = cfg.get("p_share", 0.3)
         self.k_used = set()
+        self.incidents = []
+        self.pending_fault = None
 
     def close(self):
         self.world.close()
